@@ -74,6 +74,20 @@ Fixpoint apply_steps (dur : Z -> Z -> Z) (t : list act) (steps : list (nat * act
   | (idx, a) :: r => apply_steps dur (reschedule dur (insert_after t idx a)) r
   end.
 
+(* the cost objective's activity-level quotes summed over the steps (eval_multi adds the route-level quote once) *)
+Fixpoint multi_cost_sum (dur dist : Z -> Z -> Z) (v : vehicle) (t : list act) (steps : list (nat * act)) : Z :=
+  match steps with
+  | [] => 0
+  | (idx, a) :: r => cost_estimate_activity dur dist v t idx a + multi_cost_sum dur dist v (reschedule dur (insert_after t idx a)) r
+  end.
+
+(* no waiting in the tour before, in any shadow tour, and in the final tour *)
+Fixpoint shadow_no_wait (dur : Z -> Z -> Z) (t : list act) (steps : list (nat * act)) : Prop :=
+  match steps with
+  | [] => no_wait t
+  | (idx, a) :: r => no_wait t /\ shadow_no_wait dur (reschedule dur (insert_after t idx a)) r
+  end.
+
 Fixpoint multi_leg (dur m : Z -> Z -> Z) (t : list act) (steps : list (nat * act)) : Z :=
   match steps with
   | [] => 0
